@@ -296,7 +296,7 @@ Proof.
       destruct (i_hold s I x g ok H) as [A _]. split; [lia|]. intros ->. lia.
     + caseeq x t as N; [discriminate|].
       exfalso. apply N, Honly. congruence.
-    + caseeq x t as N; [congruence|].
+    + caseeq x t as N; [simpl in *; congruence|].
       exfalso. apply N, Honly. auto.
     + exfalso. caseeq x t as N; [discriminate|eapply Hnord; eauto].
     + split; auto. eapply i_full; eauto.
@@ -348,10 +348,9 @@ Proof.
   assert (exists g, holds (pcof s x) = Some (g, true)) as (g & Hh).
   { destruct (pcof s x); try discriminate; eexists; reflexivity. }
   pose proof (reader_no_midwrite s x g I Hh) as Hm.
-  destruct (i_data s I Hm). repeat split; auto.
-  - intros. eapply i_got; eauto.
-  - eapply i_obs; eauto.
-  - eapply i_obs; eauto.
+  destruct (i_data s I Hm). split; auto. split; auto. split; auto. split.
+  - intros g0 a E. eapply i_got; eauto.
+  - intros g0 a b E. eapply i_obs; eauto.
 Qed.
 
 (* ------------------------------------------------------------------------------------------ *)
@@ -366,9 +365,9 @@ Qed.
 
 Lemma replay_reach n : forall es s s', reachable n s -> replay s es = Some s' -> reachable n s'.
 Proof.
-  induction es as [|e es IH]; intros s s' R H; simpl in H.
-  - injection H as <-. auto.
-  - destruct e.
+  induction es as [|e es IH]; intros s s' R H.
+  - simpl in H. injection H as <-. auto.
+  - destruct e; cbn [replay] in H.
     + destruct (exec_all s (ev_labels (ERdIn t))) eqn:E; [|discriminate].
       eapply IH; [|exact H]. eapply exec_all_reach; eauto.
     + destruct (exec_all s [LReadLo t; LReadHi t]) eqn:E; [|discriminate].
